@@ -198,6 +198,13 @@ def build(spec):
             Battery("Bat", MB[0], inj_p_max=N(bt.get("p", "1")), inj_q_max=N(bt.get("q", "1")), E_max=N(bt.get("e", "2")),
                     SOC_min=N(bt.get("smin", "1/10")), SOC_max=N(bt.get("smax", "1")), n_battery=N(bt.get("eta", "1")),
                     **({"SOC_start": N(bt["soc_start"])} if bt.get("soc_start") is not None else {}))
+        for k, ev in (mg.get("ev") or {}).items():
+            # an EV park on a load point inside the microgrid
+            from relsad.Table import Table
+            hours = ev.get("hours", list(range(24)))
+            from relsad.network.components import EVPark as _EVP
+            _EVP(f"MEV{k}", MB[int(k)], num_ev_dist=Table(x=np.array(hours), y=np.array([float(Fraction(v)) for v in ev["table"]])),
+                   v2g_flag=ev.get("v2g", True))
     if ict is not None:
         inet = ICTNetwork(ps)
         inet.add_nodes(list(ict_nodes.values()))
